@@ -700,6 +700,7 @@ class SMCSamples(BaseSamples):
             log_likelihood=self.log_likelihood,
             log_prior=self.log_prior,
             xp=self.xp,
+            dtype=self.dtype,
             parameters=self.parameters,
             log_evidence=self.log_evidence,
             log_evidence_error=self.log_evidence_error,
